@@ -1609,7 +1609,12 @@ def reset_after_swap_findings(seed, n=4, max_findings=2):
             mdl = M()
             mdl.blobs = k_ % 2 == 1          # the optional parts of a state (blobs) must not change who is reset
             with SweepCapture() as cap:
-                smp = ParallelTemperedSampler(['x', 'y'], mdl, 2, numpy.array(betas), swap_interval=rng.choice([1, 2]),
+                sint = rng.choice([1, 2]) if k_ % 2 == 0 else rng.choice([2, 3, 4])
+                # in the odd cases the memory is cleared at iterations that are NOT multiples of the swap
+                # interval (dumping samples between sweeps): who is reset must not depend on the retained history
+                clear_at = set() if k_ % 2 == 0 else {rng.choice([i for i in range(3, 30) if i % sint != 0]) for _ in range(3)}
+                stats['offmultiple_clears'] = stats.get('offmultiple_clears', 0) + len(clear_at)
+                smp = ParallelTemperedSampler(['x', 'y'], mdl, 2, numpy.array(betas), swap_interval=sint,
                                               proposals=[AdaptiveNormal(['x', 'y'], {'x': 6., 'y': 6.}, 10 ** 6)],
                                               reset_after_swap=True, seed=rng.randrange(1 << 20))
                 smp.start_position = {p: numpy.array([[rng.uniform(-2, 2) for _ in smp.chains] for _ in range(nt)])
@@ -1630,7 +1635,11 @@ def reset_after_swap_findings(seed, n=4, max_findings=2):
                             stats['with_gap'] += 1
                         if was != exchanged and len(out) < max_findings:
                             out.append(('reset_after_swap_wrong_levels', 'swap_index %s exchanged levels %s but the proposals of levels %s '
-                                        'were reset' % ([int(x) for x in idx], exchanged, was), {'betas': betas}))
+                                        'were reset (swap interval %d, iteration %d, memory cleared at %s)' % (
+                                            [int(x) for x in idx], exchanged, was, sint, it + 1, sorted(clear_at)),
+                                        {'betas': betas, 'swap_interval': sint, 'cleared_at': sorted(clear_at)}))
+                    if (it + 1) in clear_at:
+                        smp.clear()
     finally:
         Chain.reset_proposals = orig
     return out, stats
